@@ -111,7 +111,7 @@ def directory_rules(ctx: Ctx) -> None:
             elif e.kind in ("expr", "aug", "delete", "break", "return"):
                 toks.append(closed_text(s_, e, keep=[item]) if e.kind not in ("break", "return") else e.kind)
         decs.append(Dec(dict(s_.atoms_in(line)), tuple(toks), s_))
-    ctx.floor("paths through the directory scan", len(decs), 5)
+    ctx.floor("paths through the directory scan", len(decs), 1)
 
     def spec(a):
         if not a[M]:
